@@ -21,6 +21,10 @@ CHECKS = {
          "Proof by normal form over all pairs: both times are parsed by the same constant '%H:%M', the result is str(E-S) exactly when E>=S and str((E+1 day)-S) exactly when E<S (strict), or the modular form; the values are touched by one comparison and one subtraction only, so the three-way case split is the complete argument.", "§4 C14"),
  "C19": ("proof", "constant/enum/dataclass table folding; abstract interpretation of the 36 (type, class) constructor pairs and of the API constructors",
          "Proof, exhaustive over finite tables folded from the source: unique 2-byte model codes, protocol type and category per device type; each device class accepts exactly the types of its category (all 36 pairs decided by interpreting __post_init__ with the concrete member); both port tables cover every category, agree with the category's protocol type and with the ports of the property statement; API classes default to their protocol's TCP port.", "§4 C19"),
+ "C05": ("translation_validation", "extraction terms of every datagram getter by abstract interpretation vs a reference byte layout; constructor wiring per device type; disjoint-range rule",
+         "Translation validation over all datagram contents: each of the 20 getters denotes a closed-form extraction term (offset, width, byte order, decoder) that must equal spec/broadcast_layout.json; for each of the 9 device types the delivered object's fields are traced to the getter of the same role, the class to the type's category, one callback per datagram, OFF normalisation by guard; fields of one device read disjoint wire ranges (independent of the table). inet_ntoa / utf-8 / isoformat / round are trusted.", "§4 C05"),
+ "C06": ("proof", "normal form of the gate predicate; path/event analysis of the device builder incl. a frame whose model bytes are a literal outside the enum table",
+         "Proof: the gate's normal form is exactly magic fef0 AND length in {165,168,159} and cannot raise; on the gate-false path the only effect is a debug log; no raising construct is evaluated before the gate; a gate-passing frame with a model code outside DeviceType reaches exactly one 'unknown' warning, no device and no exception.", "§4 C06"),
 }
 CHECKS.update(_MORE) if False else None
 NOT_YET = {}
